@@ -320,6 +320,7 @@ func runC08(c *Ctx) {
 	R.Rule("alloc-size", "New2D/New2DFilled allocate width*height and store width/height in the matching fields", 2)
 	R.Rule("fill-rectangle", "Fill: first-row span, then copies to rows first+1..last inclusive, with first<=last and lo<=hi established", 1)
 	R.Rule("clone-detached", "Clone's backing slice is freshly allocated with the same length and dimensions", 1)
+	R.Rule("accessors", "Get returns the cell at (x,y) and Set stores the value there (through the unchecked helpers, called once with the method's own arguments); New2DFilled fills the new slice with the value; every panic path rejects a coordinate that really is out of range (the guards are exact)", 5)
 
 	x := &c08{c: c, ctor: map[string][3]int{}}
 	x.fW = c.P.FieldOf("arrays", "Array2D", "width")
@@ -686,6 +687,143 @@ func runC08(c *Ctx) {
 		} else {
 			o := R.Refuted("callee-precondition", parts[0], parts[1], c.ipos(r.pos), r.why)
 			o.Breaks = "the callee panics (or addresses a wrong cell) for inputs the caller must accept"
+		}
+	}
+	// ---- accessors
+	cellIdx := func(p *Path, idx *Term, owner *Term) bool {
+		W := &Term{Op: "field", Args: []*Term{owner}, Obj: x.fW, Typ: types.Typ[types.Int]}
+		q1, q0 := splitBy(ToPoly(idx), W.Key())
+		return q1.Equal(ToPoly(&Term{Op: "param", N: 2, Fn: p.Fn})) && q0.Equal(ToPoly(&Term{Op: "param", N: 1, Fn: p.Fn}))
+	}
+	if fi := c.fn("accessors", "arrays.(Array2D).getUnchecked"); fi != nil {
+		ps := allPaths[fi]
+		ok := len(ps) == 1 && len(ps[0].Rets) == 1
+		if ok {
+			r := ps[0].Rets[0]
+			ok = r.Op == "load" && r.Args[0].Op == "iaddr" && x.ownerOfSlice(r.Args[0].Args[0]) != nil && cellIdx(ps[0], r.Args[0].Args[1], paramOf(fi, 0))
+		}
+		R.Decide(ok, "accessors", fi.Name, "cell", c.pos(fi), "returns slice[x + y*width]", "does not return the cell at (x, y)")
+	}
+	if fi := c.fn("accessors", "arrays.(Array2D).setUnchecked"); fi != nil {
+		ps := allPaths[fi]
+		ok := len(ps) == 1
+		if ok {
+			n := 0
+			for i := range ps[0].Events {
+				e := &ps[0].Events[i]
+				if e.Kind == "store" && e.Addr.Op == "iaddr" && x.ownerOfSlice(e.Addr.Args[0]) != nil {
+					n++
+					if !cellIdx(ps[0], e.Addr.Args[1], paramOf(fi, 0)) || !isParam(e.Val, 3) {
+						ok = false
+					}
+				}
+			}
+			ok = ok && n == 1
+		}
+		R.Decide(ok, "accessors", fi.Name, "cell", c.pos(fi), "stores the value at slice[x + y*width]", "does not store the value at the cell (x, y)")
+	}
+	for _, acc := range []struct {
+		name, helper string
+		nargs        int
+	}{{"arrays.(Array2D).Get", "arrays.(Array2D).getUnchecked", 3}, {"arrays.(Array2D).Set", "arrays.(Array2D).setUnchecked", 4}} {
+		fi := c.fn("accessors", acc.name)
+		if fi == nil {
+			continue
+		}
+		ok, why := true, ""
+		saw := false
+		for _, p := range allPaths[fi] {
+			if p.End == EndPanic {
+				continue
+			}
+			saw = true
+			calls := callsNamed(p, acc.helper)
+			if len(calls) != 1 || len(calls[0].Args) != acc.nargs {
+				ok, why = false, "does not call "+acc.helper+" exactly once"
+				continue
+			}
+			for k := 0; k < acc.nargs; k++ {
+				if !isParam(calls[0].Args[k], k) {
+					ok, why = false, "does not pass its own arguments through"
+				}
+			}
+			if acc.nargs == 3 && !(len(p.Rets) == 1 && p.Rets[0].Key() == calls[0].Res.Key()) {
+				ok, why = false, "does not return the cell's value"
+			}
+		}
+		R.Decide(ok && saw, "accessors", fi.Name, "delegates", c.pos(fi), "in range: exactly one "+acc.helper+" with its own arguments", why)
+	}
+	if fi := c.fn("accessors", "arrays.New2DFilled"); fi != nil {
+		ok := false
+		for _, p := range allPaths[fi] {
+			if len(p.Rets) != 1 || p.Rets[0].Op != "struct" {
+				continue
+			}
+			for i := range p.Events {
+				e := &p.Events[i]
+				if e.Kind == "call" && e.Name == "slices.Fill" && isParam(e.Args[1], 2) {
+					for _, a := range p.Rets[0].Args {
+						if a.Key() == e.Args[0].Key() {
+							ok = true
+						}
+					}
+				}
+			}
+		}
+		R.Decide(ok, "accessors", fi.Name, "filled", c.pos(fi), "the new backing slice is filled with the value", "the new array is not filled with the value")
+	}
+	// exact guards: every panic path of an exported method must contain a condition that puts one of its
+	// integer parameters outside [0, dim)
+	for _, fi := range funcs {
+		if !isExported(fi) {
+			continue
+		}
+		sig := fi.Obj.Type().(*types.Signature)
+		if sig.Recv() == nil {
+			continue
+		}
+		owner := paramOf(fi, 0)
+		Wp := ToPoly(&Term{Op: "field", Args: []*Term{owner}, Obj: x.fW, Typ: types.Typ[types.Int]})
+		Hp := ToPoly(&Term{Op: "field", Args: []*Term{owner}, Obj: x.fH, Typ: types.Typ[types.Int]})
+		nPanic := 0
+		ok, why := true, ""
+		for _, p := range allPaths[fi] {
+			if p.End != EndPanic {
+				continue
+			}
+			nPanic++
+			justified := false
+			for _, cd := range p.Conds {
+				pl, kind, isInt := cd.Rel().IntNorm()
+				if !isInt || kind != ">" {
+					continue
+				}
+				for pi := 1; pi < len(fi.SSA.Params); pi++ {
+					if !isIntegerType(fi.SSA.Params[pi].Type()) {
+						continue
+					}
+					q := ToPoly(paramOf(fi, pi))
+					// q < 0  <=>  -q > 0 (or stronger: -q - k > 0, k >= 0)
+					if k, isC := polyConst(0).Add(q, -1).Add(pl, -1).IsConst(); isC && k >= 0 {
+						justified = true
+					}
+					// q >= dim  <=> q - dim + 1 > 0 (or stronger)
+					for _, D := range []*Poly{Wp, Hp} {
+						if k, isC := q.Add(D, -1).Add(polyConst(1), 1).Add(pl, -1).IsConst(); isC && k >= 0 {
+							justified = true
+						}
+					}
+				}
+			}
+			if !justified {
+				ok, why = false, "a panic path is not justified by a coordinate being < 0 or >= its dimension ("+p.CondString()+"): in-range coordinates are rejected"
+			}
+		}
+		if nPanic > 0 {
+			o := R.Decide(ok, "accessors", fi.Name, "guards-exact", c.pos(fi), fmt.Sprintf("all %d panic paths reject a coordinate that is out of range", nPanic), why)
+			if !ok {
+				o.Breaks = "a coordinate inside the bounds panics"
+			}
 		}
 	}
 	// ---- fill-rectangle
